@@ -3,8 +3,10 @@ package main
 import (
 	"encoding/json"
 	"fmt"
+	"io"
 	"math/rand"
 	"runtime"
+	"strings"
 	"sync"
 
 	"github.com/maruel/panicparse/v2/stack"
@@ -112,8 +114,42 @@ func init() {
 		if res.saturated("C13") || res.ViolCount["C13"] > 0 && len(obs) == 0 {
 			return res.write(*c.out)
 		}
+		orderParsed(res)
 		return orderRest(res, c, S, less, obs)
 	})
+}
+
+// orderParsed observes the contract on parsed dumps: which frames count as code of package main is
+// decided by the symbol's package being exactly "main", not by a library whose last path element,
+// or whose name, merely contains it.  The goroutine with real main frames is printed last and has
+// the larger id, so nothing but relevance puts it in front.
+func orderParsed(res *Result) {
+	libs := []string{"example.com/lib/main", "example.com/tool/main", "github.com/x/main", "mainframe", "domain", "example.com/main/sub", "main/sub", "x/main"}
+	for _, lib := range libs {
+		text := "goroutine 1 [running]:\nruntime.throw(...)\n\t/goroot/src/runtime/panic.go:10 +0x1\n\n" +
+			"goroutine 7 [chan receive]:\n" + lib + ".Run(0x1)\n\t/w/lib/run.go:11 +0x1\n" + lib + ".Serve(0x1)\n\t/w/lib/run.go:21 +0x1\n\n" +
+			"goroutine 8 [chan receive]:\nmain.work(0x1)\n\t/w/app/main.go:12 +0x1\nmain.main()\n\t/w/app/main.go:22 +0x1\n\n"
+		for _, sim := range []stack.Similarity{stack.ExactFlags, stack.ExactLines, stack.AnyPointer, stack.AnyValue} {
+			func() {
+				defer func() {
+					if r := recover(); r != nil {
+						res.violation(Finding{Property: "C13", Aspect: "panic", What: fmt.Sprintf("aggregating a parsed dump with library package %q panicked: %v", lib, r), Case: text})
+					}
+				}()
+				snap, _, err := stack.ScanSnapshot(strings.NewReader(text), io.Discard, &stack.Opts{})
+				if snap == nil || len(snap.Goroutines) != 3 {
+					res.drift(Finding{Property: "C13", Aspect: "parsed", What: fmt.Sprintf("the dump with library package %q does not parse into three goroutines (%v)", lib, err), Case: text})
+					return
+				}
+				a := snap.Aggregate(sim)
+				p1, p7, p8 := bucketPos(a, 1), bucketPos(a, 7), bucketPos(a, 8)
+				if len(a.Buckets) != 3 || p1 != 0 || p8 > p7 {
+					res.violation(Finding{Property: "C13", Aspect: "parsed-main", What: fmt.Sprintf("buckets of goroutines 1 (first), 8 (two frames of package main) and 7 (two frames of library package %q) are shown at positions %d, %d, %d: the bucket with code of package main must come first after the first goroutine's", lib, p1, p8, p7), Case: text})
+				}
+				res.count("parsed_main_checks", 1)
+			}()
+		}
+	}
 }
 
 func orderPair(res *Result, lc lessCase, S []absSig, omu *sync.Mutex, obs map[[2]int]bool) {
